@@ -30,7 +30,7 @@ func init() {
 	core.Register(&core.Prop{
 		ID:    "C18",
 		Level: "exploration",
-		Rule: "cases: (refs) Ref/SoftRef marshal -> generic encoding/json decode -> unmarshal for every string of length <=3 over {a, \", \\, newline, U+0001, é, €, 😀, <} (exhaustive, 820) and random valid UTF-8 up to 4 KiB; (datavalue) MarshalDataValue/UnmarshalDataValue round trip on random JSON values of depth <=4; (classify) store.Value classification of JSON texts assembled from member fragments with whitespace, extra and conflicting members versus a reference classifier; (equal) reflexivity, symmetry, transitivity of Value.Equal on generated triples and Equal => same semantic normal form; (responses) every reply kind of a real Service parsed by resprot.ParseResponse: exactly one of HasError/HasResource/HasResult and the decoded data equals what the handler supplied. distinct non-trivial = distinct inputs containing a character needing escapes, nesting, or >= 2 members",
+		Rule:  "cases: (refs) Ref/SoftRef marshal -> generic encoding/json decode -> unmarshal for every string of length <=3 over {a, \", \\, newline, U+0001, é, €, 😀, <} (exhaustive, 820) and random valid UTF-8 up to 4 KiB; (datavalue) MarshalDataValue/UnmarshalDataValue round trip on random JSON values of depth <=4; (classify) store.Value classification of JSON texts assembled from member fragments with whitespace, extra and conflicting members versus a reference classifier; (equal) reflexivity, symmetry, transitivity of Value.Equal on generated triples and Equal => same semantic normal form; (responses) every reply kind of a real Service parsed by resprot.ParseResponse: exactly one of HasError/HasResource/HasResult and the decoded data equals what the handler supplied. distinct non-trivial = distinct inputs containing a character needing escapes, nesting, or >= 2 members",
 		Assumptions: []string{
 			"encoding/json generic decoding is the reference",
 			"JSON texts with unknown extra members may be classified as without them or as invalid (the protocol is silent)",
